@@ -252,8 +252,7 @@ def run(tier):
 
     # ---- 1. model checking
     d = common.builddir('c19', clean=True)
-    for f in ('Egress.tla', 'EgressTrace.tla'):
-        shutil.copy(os.path.join(common.SPEC, 'egress', f), d)
+    common.put_spec(d, *[os.path.join('egress', f_) for f_ in ('Egress.tla', 'EgressTrace.tla')])
     consts = []
     consts.append('MC_Schemes == {%s}' % ', '.join('[id |-> "s%d", norm |-> "%s"]' % (i, n) for i, (t, n) in enumerate(schemes)))
     consts.append('MC_HostForms == {%s}' % ',\n  '.join(
